@@ -1,4 +1,4 @@
-\* C18 quick: 1 call + 1 subscription through every end path (accepted, refused, malformed id, unsubscribe, drop, server close, lag)
+\* as-is F17: the subscribe caller has given up when the accept arrives - the unsubscribe built by the read task is refused by the send task
 CONSTANTS
   Ops <- Ops2
   Kind <- K_1call1sub
@@ -6,13 +6,13 @@ CONSTANTS
   MaxQueue = 2
   BufCap = 1
   SubIds = {1}
-  Dev = {"F13c"}
+  Dev = {"F17"}
   PeerMenu = {"resp", "notif", "close"}
   MaxPeer = 4
-  MaxPush = 2
+  MaxPush = 1
   Faults = {}
   RespShapes <- RS_sub12
-  Abandon = FALSE
+  Abandon = TRUE
   MaxArr = 1
   ArrMenu = {}
 INIT Init
